@@ -127,11 +127,17 @@ def gen_world(r, leg):
 			for q in range(max(0, L - r.randint(1, 3)), L):
 				s[q] = "N"
 		seqs.append("".join(s))
+	# a motif whose name is another motif's name plus '-rc' (legal; the scanner uses
+	# that suffix internally for reverse complements)
+	if len(motifs) >= 2 and r.chance(0.1):
+		motifs[-1]["name"] = motifs[0]["name"] + "-rc"
 	wmin = min(ws)
 	cfg = {"threshold": r.choice([1e-1, 1e-2, 1e-3, 1e-4, 1e-5, 1e-6, 0.3,
 			0.25, 0.0625, 4.0 ** -min(wmin, 8), 2.0 ** -r.randint(3, 12)]),
 		"bin_size": r.choice([0.01, 0.05, 0.1, 0.1, 0.5, 1.0]),
 		"eps": r.choice([1e-4, 1e-4, 1e-3]), "reverse_complement": r.chance(0.7)}
+	if r.chance(0.1) and all(v > 0 for m in motifs for row in m["pwm"] for v in row):
+		cfg["eps"] = 0.0          # legal as long as no probability is exactly zero
 	return {"motifs": motifs, "seqs": seqs, "cfg": cfg, "equal_length": equal}
 
 
